@@ -642,14 +642,19 @@ pub fn tweak(v: &Value, pk: &mut dyn refmodel::etf::Picker) -> Value {
             }
             Value::Map(dedupe_map(e, false))
         }
-        Value::Pid { node, id, serial, creation } => match pk.pick(4, "tw-pid") {
+        Value::Pid { node, id, serial, creation } => match pk.pick(6, "tw-pid") {
+            4 => Value::Pid { node: node.clone(), id: id ^ (1 << 15), serial: *serial, creation: *creation },
+            5 => Value::Pid { node: node.clone(), id: *id, serial: serial ^ (1 << 13), creation: *creation },
             0 => Value::Pid { node: node.clone(), id: id.wrapping_add(1), serial: *serial, creation: *creation },
             1 => Value::Pid { node: node.clone(), id: *id, serial: serial.wrapping_add(1), creation: *creation },
             2 => Value::Pid { node: node.clone(), id: *id, serial: *serial, creation: creation.wrapping_add(1) },
             _ => Value::Pid { node: format!("{node}x"), id: *id, serial: *serial, creation: *creation },
         },
-        Value::Port { node, id, creation } => match pk.pick(3, "tw-port") {
+        Value::Port { node, id, creation } => match pk.pick(5, "tw-port") {
             0 => Value::Port { node: node.clone(), id: id.wrapping_add(1), creation: *creation },
+            // the same low 32 (28) bits, another high part
+            3 => Value::Port { node: node.clone(), id: id ^ (1 << 32), creation: *creation },
+            4 => Value::Port { node: node.clone(), id: id ^ (1 << 28), creation: *creation },
             1 => Value::Port { node: node.clone(), id: *id, creation: creation.wrapping_add(1) },
             _ => Value::Port { node: format!("{node}x"), id: *id, creation: *creation },
         },
